@@ -494,7 +494,7 @@ def encrypted_incoming(acc, kit, sel, sname, seed):
     dist.sender_key_distribution_message.group_id = gj
     dist.sender_key_distribution_message.axolotl_sender_key_distribution_message = skdm
     sk = ("enc", {"v": "2", "type": "skmsg"}, [], P.group_encrypt(gj, Message(conversation=t).SerializeToString()))
-    if not judge("group-with-distribution", stanza([pairwise(dist), sk], True), t):
+    if not judge("group-with-distribution", stanza([pairwise(dist), sk] if r.random() < 0.5 else [sk, pairwise(dist)], True), t):
         return
     t = text()
     if not judge("group-sender-key-only", stanza([("enc", {"v": "2", "type": "skmsg"}, [], P.group_encrypt(gj, Message(conversation=t).SerializeToString()))], True), t):
